@@ -129,7 +129,8 @@ META = {
               "and leading to the owner of the far end (chains <= 16 hops); spanned (FIFO work-list, i.e. with the F8 repair) terminates, its predicted node indices are exact, "
               "its edges are one per endpoint gate and its node set is exactly the set reachable from the root; bidirectional matches its definition; decide'd witnesses show "
               "the pre-repair LIFO work-lists wrong (spanned edges to wrong nodes, dijkstra not min-hop). Every run compares global/spanned/filtered views, dijkstra, connected, "
-              "bidirectional, edges_for of generated module graphs on the real code with the model and the abstract module graph."),
+              "bidirectional, edges_for of generated module graphs on the real code with the model and the abstract module graph; the named edge set of from_modules does not depend on the order of the module list (from_modules_edge_set_independent_of_module_order), "
+              "a view extracted at time tau is from_modules of the wiring at tau whatever was extracted or connected before (current_at_time_is_from_modules_of_that_wiring); views are re-extracted between connects at build and run time, module lists in tree order."),
         design_ref="DESIGN.md §5 C19, §6 F8",
         note=("All clauses have theorems: from_modules, spanned (termination, exact indices, node set = reachable set), bidirectional, dijkstra_first_edge_of_min_hop_path (BFS level invariant), "
               "filter_keeps_selected_and_induced_edges (the real compaction loop), connected_iff_strongly_connected. Vector indexing is modelled with getD under the well-formedness predicate WF, "
